@@ -18,6 +18,11 @@ func main() {
 	switch os.Args[1] {
 	case "run":
 		cmdRun(os.Args[2:])
+	case "check":
+		if len(os.Args) >= 4 && os.Args[2] == "--replay" {
+			os.Exit(cmdReplay(os.Args[3]))
+		}
+		os.Exit(cmdCheck(os.Args[2:]))
 	case "conform":
 		cmdConform(os.Args[2:])
 	default:
